@@ -143,6 +143,30 @@ pub fn catalogue() -> Vec<Cell> {
             }
         }
     }
+    // many actors alive at the same time (more than any small pool a back end might run actors on): every one of them
+    // starts, answers and stops
+    {
+        const N: u16 = 520;
+        let mut p = Program::new();
+        p.actors.push(actor(Entry::Spawn, Strategy::RestartOnly, None));
+        let mut many = ActorDecl::plain(60);
+        many.entry = Entry::Spawn;
+        many.at_setup = false;
+        many.holders = vec![];
+        p.actors.push(many);
+        let mut ops = vec![Op::Call { slot: 0, script: vec![], cancel: None }];
+        for _ in 0..N {
+            ops.push(Op::SpawnActor { decl: 1 });
+        }
+        // slots 0..3 belong to the two declarations; the spawned addresses follow
+        for s in [4 + N - 1, 4, 4 + N / 2, 4 + N - 2] {
+            ops.push(Op::Call { slot: s, script: vec![], cancel: None });
+        }
+        ops.push(Op::DropAll);
+        ops.push(Op::AwaitLog { tag: 60, what: 0, count: N as u32 });
+        p.clients.push(ops);
+        cells.push(Cell { name: "Spawn/many_actors_alive".to_string(), prog: p });
+    }
     // a finite stream: the actor ends with the stream
     for e in [Entry::OnStream, Entry::BuilderOnStream, Entry::BuilderWithStreamOwning] {
         let mut p = Program::new();
@@ -257,31 +281,40 @@ fn record(evs: &[log::Ev], watchdog: bool) -> String {
     }
     // callback strings per tag (ticks folded into a flag)
     let mut tags: std::collections::BTreeMap<u32, (String, bool)> = Default::default();
+    // per (tag, object) strings: a tag shared by many concurrently living actors (cell `many_actors_alive`) is recorded as
+    // a multiset of per-actor strings, because the interleaving of *different* actors' call-backs is not fixed
+    let mut per_obj: std::collections::BTreeMap<(u32, Uid), String> = Default::default();
     for e in evs {
         match &e.k {
-            K::CbOut { cb, tag, ok, .. } => {
+            K::CbOut { cb, tag, ok, obj, .. } => {
                 let s = &mut tags.entry(*tag).or_default().0;
-                s.push_str(match cb {
+                let c = match cb {
                     Cb::Started => "S",
                     Cb::Stopped => "T",
                     Cb::Finished => "F",
-                });
+                };
+                s.push_str(c);
+                let po = per_obj.entry((*tag, *obj)).or_default();
+                po.push_str(c);
                 if !ok {
                     s.push('!');
+                    po.push('!');
                 }
                 s.push(' ');
+                po.push(' ');
             }
             K::HOut { mk, .. } => {
                 // handler events are matched to their tag by the preceding HIn
                 let _ = mk;
             }
-            K::HIn { mk, tag, .. } => {
+            K::HIn { mk, tag, obj, .. } => {
                 let t = tags.entry(*tag).or_default();
                 match mk {
                     Mk::Tick => t.1 = true,
                     Mk::Item => t.0.push_str("item "),
                     m => {
                         let _ = write!(t.0, "H:{m:?} ");
+                        let _ = write!(per_obj.entry((*tag, *obj)).or_default(), "H:{m:?} ");
                     }
                 }
             }
@@ -312,6 +345,16 @@ fn record(evs: &[log::Ev], watchdog: bool) -> String {
     // how many delayed_exec jobs ran at all (a job whose actor stopped long before its delay elapsed never runs)
     let execs = evs.iter().filter(|e| matches!(&e.k, K::Exec { .. })).count();
     let first_order = format!("{first_order}, \"execs\": {execs}");
+    for (t, (s, _)) in tags.iter_mut() {
+        let objs: Vec<&String> = per_obj.iter().filter(|((tt, _), _)| tt == t).map(|(_, v)| v).collect();
+        if objs.len() > 8 {
+            let mut multi: std::collections::BTreeMap<&str, usize> = Default::default();
+            for o in &objs {
+                *multi.entry(o.trim_end()).or_default() += 1;
+            }
+            *s = multi.iter().map(|(k, n)| format!("{n} x [{k}]")).collect::<Vec<_>>().join(" ");
+        }
+    }
     let cbs: Vec<String> = tags.iter().map(|(t, (s, tick))| format!("tag{t}: {}{}", s.trim_end(), if *tick { " +ticks" } else { "" })).collect();
     format!("{{\"ops\": [{}], \"callbacks\": [{}]{first_order}, \"watchdog\": {watchdog}}}", ops.iter().map(|o| jstr(o)).collect::<Vec<_>>().join(", "), cbs.iter().map(|o| jstr(o)).collect::<Vec<_>>().join(", "))
 }
